@@ -4,10 +4,14 @@
 # Output: seeded/<ID>/confirm.log. The worktree is removed at the end.
 ID=$1; V=${VERIF_ROOT:-/verif}; W=/tmp/sd-$ID
 export GOFLAGS=-mod=mod GOPROXY=off; unset GOSUMDB
-S=$V/seeded/$ID; L=$S/confirm.log; : > $L
+S=${SEEDED_DIR:-$V/seeded}/$ID; L=$S/confirm.log; : > $L
 git -C /repo worktree remove --force $W 2>/dev/null; git -C /repo worktree add --detach $W HEAD >/dev/null 2>&1 || { echo "worktree failed" >> $L; exit 2; }
-demo=$(ls $S/zz_seeded_*_test.go); pkg=$(grep -m1 -o 'cp /tmp/seeded/[^ ]* [^ ]*' $S/notes.md | awk '{print $3}')
-[ -z "$pkg" ] && pkg=$(grep -m1 -o 'pkg/[a-z/]*/$' $S/notes.md)
+demo=$(ls $S/zz_seeded_*_test.go)
+case $(grep -m1 '^package ' $demo | awk '{print $2}') in
+  scheduler) pkg=pkg/scheduler;; objects) pkg=pkg/scheduler/objects;; tests) pkg=pkg/scheduler/tests;; ugm) pkg=pkg/scheduler/ugm;;
+  placement) pkg=pkg/scheduler/placement;; events) pkg=pkg/events;; configs) pkg=pkg/common/configs;; resources) pkg=pkg/common/resources;;
+  webservice) pkg=pkg/webservice;; security) pkg=pkg/common/security;; *) pkg=$(grep -m1 -o 'pkg/[a-z/]*/' $S/notes.md);;
+esac
 echo "demo package: $pkg" >> $L
 cp $demo $W/$pkg/
 run=$(basename $demo .go | sed 's/zz_seeded_\(.*\)_test/TestSeeded\1/')
